@@ -15,11 +15,13 @@ macro_rules! scen {
 }
 
 pub mod c01;
+pub mod c04;
 pub mod c06;
 
 pub fn all() -> Vec<Scenario> {
     let mut v = vec![];
     c01::register(&mut v);
+    c04::register(&mut v);
     c06::register(&mut v);
     v
 }
